@@ -70,7 +70,7 @@ CurveRel(c) ==
            ELSE SameC(c.a.sf[j], c.b.sf[j], c.a.y[j]) /\ EqR(c.a.sel[j], c.b.sel[j], c.a.sel[j])
                 /\ SameC(c.a.psi[j], c.b.psi[j], c.a.y[j]))
 FnStrict == /\ (Fn(E.gamma) => Pair2(E.gamma)) /\ (Fn(E.pp) => Pair2(E.pp))
-            /\ (Fn(E.J) => Pair2(E.J)) /\ (Fn(E.Jm) => Pair2(E.Jm))
+            /\ (Fn(E.J) => Pair2(E.J)) /\ (Fn(E.Jm) => Pair2(E.Jm)) /\ (Fn(E.J2) => Pair2(E.J2))
             /\ (Fn(E.y) => Frac(E.y)) /\ ((Fn(E.sf) /\ Fn(E.y)) => RatioC(E.sf, E.y.a))
             /\ (Fn(E.curve) => CurveRel(E.curve))
             /\ (Fn(E.msel) => Ratio(E.msel))
